@@ -41,6 +41,15 @@ def cases(chk):
             yield "roundtrip", {"len": n, "kind": kind, "key": keys[n % 3] if n > 16 else keys[0], "seed": n}
     for n in ([100000] if chk.quick() else [65535, 65536, 1000000, 1048576]):
         yield "roundtrip", {"len": n, "kind": r.choice(KINDS), "key": keys[1], "seed": n}
+    # sizes whose padded ciphertext ends at, just before or just after a power of two / an integer constant of the current source
+    # (chunked processing): plaintext lengths b-17, b-16, b-1, b, b+1 for every such b
+    from lib.probes import harvest_ints
+    bounds = set(1 << k for k in range(9, 18 if chk.quick() else 21)) | set(v for v in harvest_ints(["yowsup/layers/protocol_media/mediacipher.py"]) if 256 <= v <= (1 << 21))
+    for b in sorted(bounds):
+        for n in (b - 17, b - 16, b - 1, b, b + 1) + ((2 * b - 16, 2 * b - 1) if b <= 1 << 17 else ()):
+            yield "roundtrip", {"len": n, "kind": KINDS[n % len(KINDS)], "key": keys[n % 3], "seed": n}
+            if n in (b - 16, b - 1):
+                yield "tamper", {"len": n, "kind": KINDS[n % len(KINDS)], "key": keys[n % 3], "seed": n, "all": False}
     for n in list(range(0, 49 if not chk.quick() else 34)):
         yield "tamper", {"len": n, "kind": KINDS[n % 4], "key": keys[n % 3], "seed": n, "all": (not chk.quick()) or n in (0, 1, 15, 16, 17, 32)}
     for n in (0, 1, 15, 16, 17, 31, 32, 33, 48, 64):
